@@ -188,6 +188,7 @@ def slot_rules(ctx):
 
 def run(ctx):
     ctx.attempt(csr_assembly_rule, ctx)
+    ctx.attempt(pattern_structure_rule, ctx)
     from . import c14 as _c14
 
     # 'whether it is the first assembly or a later one': a later request returns the matrices of the current state
@@ -449,7 +450,7 @@ def csr_assembly_rule(ctx):
     from ..repo import FuncInfo
 
     repo = ctx.repo
-    r = ctx.rule("R3.9", "cached-pattern assembly interpreted: the returned CSR equals the scatter-add of the element entries (two groups, a slot absent for one group, matrix and vector slots, repeated assembly through the memoised map)", min_instances=4)
+    r = ctx.rule("R3.9", "cached-pattern assembly interpreted: the returned CSR equals the scatter-add of the element entries (two groups, a slot absent for one group, matrix and vector slots, repeated assembly through the memoised map)", min_instances=18)
     simu = repo.cls(SIMU)
     fA = repo.lookup_method(simu, simu.mangle("__Assemble_csr"))
     fM = repo.lookup_method(simu, simu.mangle("__Get_csr_map"))
@@ -505,13 +506,15 @@ def csr_assembly_rule(ctx):
         return conns[tag][e][i // dof_n] * dof_n + i % dof_n
 
     cases = [("matrix, both groups", True, ("A", "B"), False), ("matrix, second group absent (None)", True, ("A",), False), ("matrix, first group absent (None)", True, ("B",), False), ("vector, both groups", False, ("A", "B"), False),
-             ("complex matrix, both groups", True, ("A", "B"), True), ("complex vector, both groups", False, ("A", "B"), True)]
+             ("complex matrix, both groups", True, ("A", "B"), True), ("complex vector, both groups", False, ("A", "B"), True),
+             # one slot fed by a real group and a complex group (a real bulk operator plus a complex boundary operator)
+             ("real group A + complex group B, matrix", True, ("A", "B"), ("B",)), ("complex group A + real group B, matrix", True, ("A", "B"), ("A",)), ("real group A + complex group B, vector", False, ("A", "B"), ("B",))]
     for label, isMatrix, present, cx in cases:
         for rep in (0, 1):  # the second pass reuses the memoised map
             r.instance(fn=fA.qualname)
             data = {}
             for tag, g in (("A", gA), ("B", gB)):
-                data[g] = entries(tag, isMatrix, rep, cx) if tag in present else None
+                data[g] = entries(tag, isMatrix, rep, (cx is True) or (isinstance(cx, tuple) and tag in cx)) if tag in present else None
             try:
                 M = I.call_function(fA, [data, dof_n, Ndof, isMatrix], self_obj=obj)
             except XRaise as e:
@@ -546,3 +549,53 @@ def csr_assembly_rule(ctx):
                 r.fail(fA.qualname, f"csr:{label}", fA.file, fA.lineno, "_Simu.__Assemble_csr", f"{label} (pass {rep + 1}{', memoised map' if rep else ''}): {bad}: the global {'matrix' if isMatrix else 'vector'} is not the scatter-add of the element contributions")
             else:
                 r.ok(f"{label}, pass {rep + 1}: CSR == scatter-add")
+
+
+NARROW_INT = {"int8", "uint8", "int16", "uint16", "bool", "bool_", "byte", "ubyte", "short", "ushort"}
+
+
+def pattern_structure_rule(ctx):
+    """R3.11: the sparsity pattern is a matter of positions, never of values.  (a) The values handed to a duplicate-summing
+    sparse constructor are counted by it -- one per element entry landing on the slot: they are not of a narrow integer
+    type (a node shared by 256 elements wraps an int8 count to 0; the slot then looks empty).  (b) The slot list of the
+    pattern is read from the structure arrays (indptr / indices), not from value-dependent queries (`.nonzero()`,
+    `eliminate_zeros()`, `count_nonzero`), which drop a stored slot whose value happens to be 0 and shift every later
+    element entry by one slot."""
+    repo = ctx.repo
+    r = ctx.rule("R3.11", "sparsity pattern: structure-only matrices are not built from narrow integer values (duplicate counts wrap) and the slot list is read from indptr / indices, not from value-dependent queries", min_instances=1)
+    simu = repo.cls(SIMU)
+    from ..flow import Locals
+
+    for mname in ("__Get_csr_map", "__Assemble_csr"):
+        f = repo.lookup_method(simu, simu.mangle(mname))
+        if f is None:
+            continue
+        r.instance(fn=f.qualname)
+        L = Locals(f.node)
+        bad = None
+        sparse_vars = set()
+        for n in ast.walk(f.node):
+            if isinstance(n, ast.Assign) and isinstance(n.value, ast.Call) and (dotted(n.value.func) or "").split(".")[-1] in ("csr_matrix", "coo_matrix", "csc_matrix", "lil_matrix"):
+                for t in n.targets:
+                    if isinstance(t, ast.Name):
+                        sparse_vars.add(t.id)
+                # (values, (rows, cols)) form: the values array
+                a0 = n.value.args[0] if n.value.args else None
+                a0 = L.resolve(a0) if a0 is not None else None
+                if isinstance(a0, ast.Tuple) and len(a0.elts) == 2 and isinstance(L.resolve(a0.elts[1]), ast.Tuple):
+                    vals = L.resolve(a0.elts[0])
+                    for c in ast.walk(vals):
+                        if isinstance(c, ast.Call):
+                            for k in c.keywords:
+                                if k.arg == "dtype" and (dotted(k.value) or "").split(".")[-1] in NARROW_INT:
+                                    bad = (c, f"`{norm_text(c)[:60]}`: the values summed per slot by the sparse constructor have the narrow type {(dotted(k.value) or '').split('.')[-1]}: the count of element entries landing on one slot wraps (256 elements around a node give 0) and the slot disappears from value-based queries")
+                            if (dotted(c.func) or "").split(".")[-1] == "astype" and c.args and (dotted(c.args[0]) or "").split(".")[-1] in NARROW_INT:
+                                bad = (c, f"`{norm_text(c)[:60]}`: values of a narrow integer type are summed per slot by the sparse constructor")
+        for n in ast.walk(f.node):
+            if isinstance(n, ast.Call) and isinstance(n.func, ast.Attribute) and n.func.attr in ("nonzero", "eliminate_zeros", "count_nonzero") and isinstance(n.func.value, ast.Name) and n.func.value.id in sparse_vars:
+                bad = bad or (n, f"`{norm_text(n)[:60]}` reads the slots of the pattern through the VALUES of the structure matrix: a stored slot whose value is 0 is dropped and every later element entry is mapped one slot too early")
+        if bad:
+            n, msg = bad
+            r.fail(f.qualname, f"pattern:{norm_text(n)[:30]}", f.file, n.lineno, f"_Simu.{mname}", msg)
+        else:
+            r.ok(f"{mname}: pattern built from positions only")
